@@ -276,7 +276,10 @@ func ruleGeneric(e *Env, entries []*ssa.Function) {
 	reach := e.C.Reachable(entries...)
 	// include the error types' methods (Error() formats the input)
 	for _, f := range e.PkgFuncs(ValuePkgs...) {
-		if f.Name() == "Error" || f.Name() == "Unwrap" {
+		// … and the methods fmt reaches through its interfaces on a type built from the input's type (a
+		// `quoted[T]` with a String method that tells string from []byte is never called statically)
+		fmtReached := f.Signature.Recv() != nil && recvHasTypeParams(f) && (f.Name() == "String" || f.Name() == "Format" || f.Name() == "GoString")
+		if f.Name() == "Error" || f.Name() == "Unwrap" || fmtReached {
 			// … and what they call (a helper that quotes the input for the message)
 			for g := range e.C.Reachable(f) {
 				reach[g] = true
@@ -616,6 +619,12 @@ func ruleC17Arms(e *Env) {
 									// strings.X and bytes.X of the same name do the same to a text: one name for both
 									name := g.String()
 									name = strings.TrimPrefix(strings.TrimPrefix(name, "strings."), "bytes.")
+									// … with the same constant operands (`Trim(v, " \t\r\n")` and `Trim(v, " ")` cut different texts)
+									for _, a := range cc.Args {
+										if k, isK := a.(*ssa.Const); isK && k.Value != nil {
+											name += "," + k.Value.ExactString()
+										}
+									}
 									arms[kind]["ext:"+name] = true
 									if v, isVal := x.(ssa.Value); isVal {
 										walk(v, depth+1) // what the rewritten text is handed to
